@@ -28,13 +28,18 @@ def generate(rng, tier):
     for i in range(n):
         nf = rng.choice([1, 2, 2, 3, 4, 6, 12])
         sizes = [rng.choice([0, 1, 2, 2, 99, 100, 101, 5000 if rng.random() < 0.2 else 7]) for _ in range(nf)]
-        payloads = [b"map select count($line) from . group by $hostname logformat generickv".hex()]
+        # every fourth session serialises interim results (interval 1 s) and lasts longer than that
+        interim = i % 4 == 3
+        if interim:
+            sizes = [rng.choice([12000, 16000])] + sizes[:3]      # ~3-4 s at the aggregator's pace: two or three interim results
+        payloads = [("map select count($line) from . group by $hostname %slogformat generickv" % ("interval 1 " if interim else "")).encode().hex()]
         for k, sz in enumerate(sizes):
             path = os.path.join(fdir, "m%05d_%d.log" % (i, k))
             with open(path, "w") as f:
                 f.write("".join("k=v%d\n" % j for j in range(sz)))
             payloads.append(("cat: %s regex:noop " % path).encode().hex())
-        cases.append({"kind": "server", "payloads": payloads, "cat_limit": rng.choice([1, 2, 3]), "private_limiter": True,
+        # every third session shares its cat limiter with the sessions running next to it (the server-wide limit)
+        cases.append({"kind": "server", "payloads": payloads, "cat_limit": rng.choice([1, 2, 3]), "private_limiter": i % 3 != 1,
                       "gap_ms": rng.choice([0, 0, 0, 1, 10]), "read_delay_us": rng.choice([0, 0, 200]),
                       # an upper bound only (sessions end by themselves): the aggregator handles ~2 700 lines/s when idle
                       "wait_ms": 20000 + 6 * sum(sizes), "_sizes": sizes})
@@ -114,6 +119,8 @@ def classify(case, ob, detail):
     if case["kind"] != "server":
         return None
     total = ob.get("_total", -1)
+    if total > sum(case["_sizes"]):
+        return None        # the recorded findings lose lines; nothing is ever accounted for twice
     # (1) hook trace of the session: a read command was counted after shutdown() had been entered, and every
     # file whose command was counted before that is fully accounted for
     if ob.get("late_command"):
@@ -125,7 +132,10 @@ def classify(case, ob, detail):
     # and files of later read commands went through the limiter afterwards; everything before is accounted for
     if ob.get("aggregator_finished") and ob.get("files_after_aggregator"):
         after = _idx(ob.get("files_after_aggregator"))
-        if after and total >= sum(sz for k, sz in enumerate(case["_sizes"]) if k not in after):
+        # ... and those files belong to read commands that were RECEIVED after the aggregator had finished (a file
+        # of an earlier command that merely waited for its limiter slot is a different matter)
+        known_cmds = ob.get("commands_before_aggregator_finished", 0) - 1      # minus the map command
+        if after and min(after) >= known_cmds and total >= sum(sz for k, sz in enumerate(case["_sizes"]) if k not in after):
             return "read_command_after_aggregator_finished"
     return None
 
